@@ -131,7 +131,7 @@ func c17Cases(thorough bool) []c17Case {
 		}
 		vs := []uint64{0, 1, max}
 		if w > 8 {
-			vs = append(vs, uint64(1)<<(w/2), (uint64(1)<<(w-1))) // first value beyond the next smaller width; sign-bit value
+			vs = append(vs, uint64(1)<<(w/2), (uint64(1) << (w - 1))) // first value beyond the next smaller width; sign-bit value
 		}
 		var s []string
 		for _, v := range vs {
